@@ -9,6 +9,7 @@ import (
 	"fmt"
 	"reflect"
 	"sort"
+	"strings"
 	"sync"
 	"sync/atomic"
 )
@@ -24,11 +25,19 @@ func W(base interface{}, field string) Acc { return Acc{base, field, true} }
 
 var Steps int64
 
+// PollHook, when non-nil, is called (outside explorations) before every `select` statement of
+// the instrumented package, i.e. before every poll of a close channel (C12: the channel is closed
+// at every poll index).
+var PollHook func(site string)
+
 // Step is inserted before every statement that touches possibly shared memory.
 func Step(site string, accs ...Acc) {
 	if s := Active; s != nil {
 		s.step(site, accs)
 		return
+	}
+	if PollHook != nil && len(accs) == 0 && strings.HasSuffix(site, "/select") {
+		PollHook(site)
 	}
 	atomic.AddInt64(&Steps, 1)
 }
